@@ -1121,7 +1121,11 @@ class Unit:
             >>> assert Unit.parse('m^2/s') == Unit.parse('m²⋅s⁻¹')
             >>> assert Unit.parse('m^2*s') == Unit.parse('m²⋅s')
         """
-        return cast(Unit, parser.parse(string, start="unit"))
+        try:
+            return cast(Unit, parser.parse(string, start="unit"))
+        except (ValueError, OverflowError) as error:
+            # e.g. an exponent with more digits than int() or float arithmetic accept
+            raise ParseError(str(error)) from error
 
     @classmethod
     def _simplify(cls, factors: Mapping["Unit", int]) -> Dict["Unit", int]:
@@ -1461,7 +1465,11 @@ class Quantity:
             >>> assert Quantity.parse('2 m^2/s') == Quantity.parse('2 m²⋅s⁻¹')
             >>> assert Quantity.parse('2 m^2*s') == Quantity.parse('2 m²⋅s')
         """
-        return cast(Quantity, parser.parse(string, start="quantity"))
+        try:
+            return cast(Quantity, parser.parse(string, start="quantity"))
+        except (ValueError, OverflowError) as error:
+            # e.g. a magnitude with more digits than int() accepts
+            raise ParseError(str(error)) from error
 
     def __hash__(self) -> int:
         return hash((self.magnitude, self.unit))
@@ -2265,7 +2273,7 @@ One = Number.unit(name="one", symbol="1")
 
 
 from . import conversions  # noqa: E402
-from .parsing import parser  # noqa: E402
+from .parsing import ParseError, parser  # noqa: E402
 
 One.equals(1 * One)
 
